@@ -29,3 +29,17 @@ pub fn align_down(exponent: u8, value: u64) -> u64 {
 pub fn align_modulo(exponent: u8, ref_offset: u64, offset: u64) -> u64 {
     Alignment { exponent }.align_modulo(ref_offset, offset)
 }
+pub mod x86relax;
+pub mod fault;
+pub mod rules;
+pub mod versions;
+pub mod strmerge;
+pub mod mtrace;
+pub mod pause;
+pub mod expr;
+pub mod savedir;
+pub mod depfile;
+pub mod trace;
+pub mod alloc;
+pub mod layoutdump;
+pub mod thunks;
